@@ -2,12 +2,13 @@ CONSTANTS
   Dev = {}
   Conns = {1}
   MaxReq = 2
-  QCaps = {1, 2}
+  QCaps = {1}
   Kinds = {"single", "stream2"}
   MaxCredit = 2
   MaxTick = 2
   NP = 2
   Limit = 1
+  MaxAErr = 0
   MaxFail = 1
   MaxAbort = 1
 SPECIFICATION SpecConn
